@@ -358,43 +358,58 @@ def load_known(pid):
 
 
 def prove(ctx, prop_file, extra_targets=()):
-    """Build the proof closure of Properties/<prop_file> and record obligations/assumptions."""
-    target = "Properties/%s.vo" % prop_file
-    ok, log = coq_make([target] + list(extra_targets))
-    closure = coq_closure("Properties/%s.v" % prop_file)
+    """Build the proof closure of Properties/<prop_file>.v and Properties/<prop_file>_*.v and record
+    obligations/assumptions."""
+    import glob as _glob
+    coq_makefile()
+    files = [os.path.relpath(f, COQ) for f in
+             sorted(_glob.glob(os.path.join(COQ, "Properties", prop_file + ".v")) +
+                    _glob.glob(os.path.join(COQ, "Properties", prop_file + "_*.v")))]
+    targets = [f + "o" for f in files]
+    ok, log = coq_make(targets + list(extra_targets))
+    closure = []
+    for f in files:
+        for c in coq_closure(f):
+            if c not in closure:
+                closure.append(c)
     names = count_statements(closure)
     built = [f for f in closure if newer(os.path.join(COQ, f + "o"), os.path.join(COQ, f))]
     discharged = count_statements(built)
     audit = audit_sources(closure)
-    # Re-run the property file itself to capture Print Assumptions (cheap: only `exact` proofs).
+    if not files:
+        ok = False
+        log += "\nno Properties file for " + prop_file
+    # Re-run the property files themselves to capture Print Assumptions (cheap: only `exact` proofs).
     assumptions = []
     if ok:
-        rc, out = sh(["coqc", "-Q", ".", "DepsDev", "-w", "-notation-overridden", "Properties/%s.v" % prop_file],
-                     cwd=COQ, timeout=1200)
-        if rc != 0:
-            ok = False
-            log += "\n" + out
-        else:
+        for f in files:
+            rc, out = sh(["coqc", "-Q", ".", "DepsDev", "-w", "-notation-overridden", f], cwd=COQ, timeout=1200)
+            if rc != 0:
+                ok = False
+                log += "\n" + out
+                continue
             cur = None
             for line in out.splitlines():
                 if line.startswith("Closed under the global context"):
                     assumptions.append("Closed under the global context")
+                    cur = None
                 elif line.startswith("Axioms:"):
                     cur = []
                     assumptions.append(cur)
                 elif cur is not None and line.strip():
                     cur.append(line.strip())
-            assumptions = [a if isinstance(a, str) else "Axioms: " + " ".join(a) for a in assumptions]
+        assumptions = [a if isinstance(a, str) else "Axioms: " + " ".join(a) for a in assumptions]
     failing = None
     if not ok:
         m = re.search(r'File "\./([^"]+)", line (\d+)', log)
         failing = (m.group(1) + ":" + m.group(2)) if m else "unknown"
+    theorems = count_statements(files)
     ctx.proof = {
-        "ok": ok and not audit, "target": target, "closure": closure, "obligations": len(names),
-        "discharged": len(discharged) if ok else len([n for n in discharged]),
-        "assumptions": assumptions, "audit": audit, "failing": failing,
+        "ok": ok and not audit, "target": " ".join(targets), "closure": closure, "obligations": len(names),
+        "discharged": len(discharged),
+        "assumptions": sorted(set(assumptions)), "assumption_count": len(assumptions), "audit": audit, "failing": failing,
         "log_tail": log[-3000:] if not ok else "",
-        "theorems": count_statements(["Properties/%s.v" % prop_file]),
+        "theorems": theorems,
     }
     return ctx.proof["ok"]
 
